@@ -130,9 +130,9 @@ def mk(I, first):
     return c
 
 
-def h_senders(I, n, bound):
+def h_senders(I, n, bound, hi=99):
     """n application tasks call send_msg concurrently."""
-    first = I.int("next_out", 1, 99)
+    first = I.int("next_out", 1, hi)
     c = mk(I, first)
     w = YWriter()
     c._socket_writer = w
@@ -210,14 +210,13 @@ def cells(tier):
                     dict(tasks="reader servicing ResendRequest + heartbeat timer tick (TestRequest)", suspension_points="should_replay, drain, on_state_change"),
                     goals=["scheduled"], budget_s=2400))
     if not quick:
-        out.append(Cell("resend+2-senders", lambda I: h_resend_race(I, 2, 2, False, 22),
-                        dict(tasks="reader servicing ResendRequest over 2 journaled messages + 2 x send_msg"), goals=["scheduled"], budget_s=3000))
-        out.append(Cell("resend+sender+heartbeat", lambda I: h_resend_race(I, 2, 1, True, 24),
-                        dict(tasks="reader + 1 x send_msg + heartbeat tick"), goals=["scheduled"], budget_s=3000))
+        # (reader + 2 senders and reader + sender + heartbeat did not exhaust within 40 min per cell:
+        #  outside the claim, see OUTSIDE)
+        out.append(Cell("senders/2/wide-counter", lambda I: h_senders(I, 2, 8, 99999), dict(tasks="2 x send_msg", next_out="symbolic in [1,99999]"), goals=["scheduled"]))
     return out
 
 
 ASSUMPTIONS = ["suspension points are the library's own awaits: drain() and the application hooks should_replay / on_state_change / on_message / on_logon; tasks waiting in drain() are woken in FIFO order (the property's stated assumption)",
                "asyncio's cooperative scheduling: a task runs uninterrupted between two awaits"]
 STUBS = ["event loop -> symbolic scheduler (vfx: checks/c14.schedule)", "transport drain -> suspension point", "hooks -> suspending stubs", "sqlite3 -> FakeSQLite", "clock -> virtual"]
-OUTSIDE = ["more than 3 tasks / more suspension points than the stated bound", "non-FIFO wake-up of drain waiters", "task cancellation"]
+OUTSIDE = ["reader servicing a ResendRequest together with two further tasks (2 senders, or sender + heartbeat): the schedule tree did not exhaust in 40 min per cell", "more than 3 tasks / more suspension points than the stated bound", "non-FIFO wake-up of drain waiters", "task cancellation"]
